@@ -14,7 +14,7 @@ import (
 // ---- C02: only authentic, unmodified data messages of this session are delivered ----
 
 type c02run struct {
-	resent int // texts that came back marked as resent and were checked against what the sender passed to Send
+	resent  int // texts that came back marked as resent and were checked against what the sender passed to Send
 	s       *Sess
 	o       *sim.Outcome
 	hits    int // non-trivial attacks performed
